@@ -27,3 +27,67 @@ package main
 //@   callpre server.RateLimitMiddleware rlDay(rlUnit(limit.Window)) ==> arg0.RequestsPerMinute <= (int(limit.Requests) + 1439) / 1440 || arg0.RequestsPerMinute == 1
 //@   callpre server.RateLimitMiddleware arg0.BurstSize >= 1 && arg0.BurstSize <= 60 * int(limit.Requests)
 //@   callpre server.RateLimitMiddleware !arg0.TrustProxy
+
+// ---- declared authentication fails closed (C06) ----------------------------------------
+//@ func denyAllMiddleware$1$1
+//@   callpre server.SendError arg1 == 401
+//@   ensures ncalls() == old(ncalls())
+
+//@ spec func hget(ctx *server.Context, name string) string = libm("(http.Header).Get", string, ctx.Request.Header, name)
+//@ spec func trim(s string) string = libcall(strings.TrimSpace, s)
+//@ spec func apiKeyOf(ctx *server.Context) string = ite(trim(hget(ctx, "X-API-Key")) != "", trim(hget(ctx, "X-API-Key")), ite(libcall(strings.HasPrefix, hget(ctx, "Authorization"), "Bearer "), trim(libcall(strings.TrimPrefix, hget(ctx, "Authorization"), "Bearer ")), ""))
+//@ spec func keyOK(ctx *server.Context, valid map[string]bool) bool = apiKeyOf(ctx) != "" && has(valid, apiKeyOf(ctx)) && valid[apiKeyOf(ctx)]
+//@ func apiKeyMiddleware$1$1
+//@   requires ctx != nil && ctx.Request != nil
+//@   param next modifies everything
+//@   param next ensures ncalls() == old(ncalls()) + 1
+//@   callpre server.SendError arg1 == 401 && !keyOK(ctx, validKeys)
+//@   check ncalls() == old(ncalls()) + 1 ==> old(keyOK(ctx, validKeys))
+//@   check ncalls() == old(ncalls()) || ncalls() == old(ncalls()) + 1
+
+//@ func parseAPIKeys
+//@   modifies nothing
+//@   ensures result != nil && fresh(result) && forall(k, string, has(result, k) ==> k != "" && result[k])
+//@   loop 1 invariant keys != nil && fresh(keys) && forall(k, string, has(keys, k) ==> k != "" && keys[k])
+
+//@ func apiKeyMiddleware
+//@   modifies nothing
+//@   ensures result != nil
+//@ func denyAllMiddleware
+//@   modifies nothing
+//@   ensures result != nil
+
+// authMiddleware: a declared auth always yields a middleware; credential-checking middlewares are
+// only ever built over a non-empty credential set without blank entries (otherwise deny-all).
+//@ func authMiddleware
+//@   modifies nothing
+//@   ensures auth != nil ==> result != nil
+//@   callpre glyph.apiKeyMiddleware arg0 != nil && len(arg0) > 0 && forall(k, string, has(arg0, k) ==> k != "" && arg0[k])
+//@   callpre server.BasicAuthMiddleware arg0 != nil && len(arg0) == 1 && forall(k, string, has(arg0, k) ==> k != "" && arg0[k])
+
+//@ func routeMiddlewares
+//@   requires route != nil
+//@   modifies nothing
+//@   ensures route.Auth != nil ==> len(result) >= 1
+//@   check route.Auth != nil ==> middlewares[len(middlewares) - 1] == auth && auth != nil
+
+// Dispatcher: the handler finally invoked is mw[0](mw[1](...(route.Handler))): every declared
+// middleware wraps the body; a request matching no route gets 404 and runs nothing.
+//@ spec rec func chain(mws [0]server.Middleware, off int, n int, h server.RouteHandler, i int) server.RouteHandler = ite(i >= n, h, wrap(mws[off+i], chain(mws, off, n, h, i + 1)))
+//@ func createHandler$1
+//@   requires r != nil && router != nil && forall(m, server.HTTPMethod, wfRoutes(router, m))
+//@   callpre dyn(server.RouteHandler) self == chain(row(route.Middlewares), off(route.Middlewares), len(route.Middlewares), route.Handler, 0)
+//@   callpre (http.ResponseWriter).WriteHeader arg1 == 204 || (arg1 == 404 && ncalls() == old(ncalls())) || arg1 == 500
+//@   loop 1 invariant -1 <= i && i < len(route.Middlewares) + 0 && handler == chain(row(route.Middlewares), off(route.Middlewares), len(route.Middlewares), route.Handler, i + 1)
+//@   check ncalls() == old(ncalls()) || ncalls() == old(ncalls()) + 1
+
+// console output helpers: no effect on contract-visible state
+//@ func printError
+//@   trusted
+//@   modifies nothing
+//@ func printWarning
+//@   trusted
+//@   modifies nothing
+//@ func printInfo
+//@   trusted
+//@   modifies nothing
